@@ -453,12 +453,21 @@ def check_fchk_basis_block(ctx, rid):
     body = lo.body
     i0 = next((i for i, st in enumerate(body) if isinstance(st, ast.Assign) and isinstance(st.value, ast.Subscript) and isinstance(st.value.slice, ast.Constant) and st.value.slice.value == "Shell types"), None)
     i1 = next((i for i, st in enumerate(body) if isinstance(st, ast.Assign) and isinstance(st.targets[0], ast.Subscript) and isinstance(st.targets[0].slice, ast.Constant) and st.targets[0].slice.value == "obasis"), None)
-    if len(wst) != 1 or i0 is None or i1 is None or i1 < i0:
+    rhelper = None
+    if i0 is None:
+        # the reader's block may be a helper of the module that is handed the field dictionary
+        for cs in lo.calls:
+            for h in cs.callees:
+                if h.module is lo.module and h.parent is None and len(h.posparams) == 1 and any(isinstance(x, ast.Subscript) and isinstance(x.slice, ast.Constant) and x.slice.value == "Shell types" for x in ast.walk(h.node)):
+                    rhelper = h
+    if len(wst) != 1 or (rhelper is None and (i0 is None or i1 is None or i1 < i0)):
         raise AnalysisError("fchk: the basis-set block of dump_one / load_one was not found")
-    src = body[i0].value.value.id if isinstance(body[i0].value.value, ast.Name) else None
-    dst = body[i1].targets[0].value.id if isinstance(body[i1].targets[0].value, ast.Name) else None
-    if src is None or dst is None:
-        raise AnalysisError("fchk.load_one: the field dictionary / result dictionary of the basis block cannot be identified")
+    src = dst = None
+    if rhelper is None:
+        src = body[i0].value.value.id if isinstance(body[i0].value.value, ast.Name) else None
+        dst = body[i1].targets[0].value.id if isinstance(body[i1].targets[0].value, ast.Name) else None
+        if src is None or dst is None:
+            raise AnalysisError("fchk.load_one: the field dictionary / result dictionary of the basis block cannot be identified")
     got = {}
 
     def cap(args, kw):
@@ -470,10 +479,15 @@ def check_fchk_basis_block(ctx, rid):
         ev.stubs = {f"iodata.formats.fchk.{nm}": cap for nm in ("_dump_integer_scalars", "_dump_integer_arrays", "_dump_real_arrays", "_dump_real_scalars")}
         ev._block(wst, {do.posparams[0]: None, do.posparams[1]: Rec(iocls, **f0)})
         fields = {k: (np.asarray(v) if isinstance(v, (list, tuple, np.ndarray)) else v) for k, v in got.items()}
-        local = {src: fields, dst: {}, "lit": None}
         ev = AccessorEval(prog, shcls, limit=40000)
         ev.module = lo.module
-        ev._block(body[i0 : i1 + 1], local)
+        if rhelper is None:
+            local = {src: fields, dst: {}, "lit": None}
+            ev._block(body[i0 : i1 + 1], local)
+        else:
+            dst = "result"
+            made = ev.run_free(rhelper, [fields], {})
+            local = {dst: {"obasis": made if isinstance(made, Rec) else Rec(bcls, shells=list(made) if isinstance(made, (list, tuple)) else None, conventions={}, primitive_normalization="L2")}}
     except Raised as exc:
         ctx.violate(rid, f"FCHK basis block: the fields written for a model basis (s, SP, pure d, Cartesian f, p, pure g) make the reader's block raise {exc.args[0]}", do, wst[0], construct="fchk basis block: raises")
         return
